@@ -50,8 +50,10 @@ VOLATILE_ENV = frozenset(
 # ------------------------------------------------------------------ scratch $PATH
 
 _SCRIPTS = {
-    "ok": "#!/bin/sh\necho ok\nexit 0\n",
-    "fail": "#!/bin/sh\nexit 1\n",
+    # ok/fail outlive xonsh's spawn sequence (30 ms): whether a child happens to have exited
+    # already when xonsh polls it once in passing must not decide the verdict
+    "ok": "#!/bin/sh\necho ok\n/bin/sleep 0.03\nexit 0\n",
+    "fail": "#!/bin/sh\n/bin/sleep 0.03\nexit 1\n",
     "big": "#!/bin/sh\nexec /usr/bin/seq 1 50000\n",  # ~289 KB, quickly
     "slowbig": "#!/bin/sh\nexec /usr/bin/yes c09c09c09c09c09c09c09c09c09c09c09\n",  # until SIGPIPE
     "eat": "#!/bin/sh\nwhile IFS= read -r l; do :; done\nexit 0\n",
